@@ -209,6 +209,8 @@ type scionVariant struct {
 	auth           *authSpec // E2E extension with a packet authenticator option (gen_auth.go)
 	rawPathType    byte      // != 0: path type field of the common header overwritten after serialisation (empty path of an unregistered type)
 	srcRaw, dstRaw *rawHost  // != nil: address type field and raw bytes of the source / destination host instead of srcIP / dstIP
+	rawNextHdr     byte      // != 0: next-header field of the common header overwritten after serialisation (an L4 protocol the client's parser does not know)
+	padTo          int       // > 0: the datagram is padded with zero bytes to this length after serialisation (longer than the client's buffer: MSG_TRUNC)
 	tsAuto         bool      // e2eTs lies near the request's transmit time: whether the client is expected to use it is decided after the exchange, when the kernel transmit time is known
 }
 
@@ -305,6 +307,12 @@ func buildSCION(v scionVariant, srcPort, dstPort uint16, payload []byte) (d dgra
 		}
 		if v.rawPathType != 0 {
 			d.wire[8] = v.rawPathType
+		}
+		if v.rawNextHdr != 0 {
+			d.wire[4] = v.rawNextHdr
+		}
+		if v.padTo > len(d.wire) {
+			d.wire = append(d.wire, make([]byte, v.padTo-len(d.wire))...)
 		}
 		if v.udpLenDelta != 0 && !v.scmp {
 			off := len(d.wire) - len(payload) - 8 + 4
